@@ -84,6 +84,19 @@ class Ctx:
         self.next_h = 0
         self.classes = [c["name"] for c in spec["classes"]]
         self.budget = kn.get("budget", 30)
+        self.shared = {}
+
+
+def gen_arg_value(ctx):
+    """Value for a named positional parameter: now and then one of the session's few shared objects (the same object reaches
+    several calls; a large container, so that in-place mutations in between do not change how it looks from outside)."""
+    rng = ctx.rng
+    if ctx.kn.get("shared_p") and rng.random() < ctx.kn["shared_p"]:
+        i = rng.randrange(3)
+        if i not in ctx.shared:
+            ctx.shared[i] = V.gen_big_container(rng) if rng.random() < 0.7 else V.gen_value(rng, dict(ctx.kn, tw_p=0, atom_p=0.0), ctx.classes)
+        return ["sh", i, ctx.shared[i]]
+    return V.gen_value(rng, ctx.kn, ctx.classes)
 
 
 def gen_args(ctx, f, skip_receiver):
@@ -97,7 +110,7 @@ def gen_args(ctx, f, skip_receiver):
             if p.get("d") and rng.random() < 0.4:
                 positional_ok = False
                 continue
-            v = V.gen_value(rng, ctx.kn, ctx.classes)
+            v = gen_arg_value(ctx)
             if k == "pk" and (not positional_ok or rng.random() < 0.2):
                 kwargs[p["n"]] = v
                 positional_ok = False
@@ -245,6 +258,13 @@ def gen_script(ctx, f, depth, recv_cls=None, top=False):
         if ctx.kn.get("rnd_p") and rng.random() < ctx.kn["rnd_p"]:
             acts.append({"a": "rnd"})
             continue
+        if names and body != "coro" and ctx.kn.get("mutate_p") and rng.random() < ctx.kn["mutate_p"]:
+            # mutate, in place, the container bound to a parameter (no-op at run time if it is not an exact list / dict / set)
+            acts.append({"a": "mut", "p": rng.choice(names), "v": V.gen_atom(rng, dict(ctx.kn, tw_p=0), ctx.classes),
+                         "key": rng.choice([["s", "mk"], ["s", "k1"], ["i", 9], ["s", "x"], ["n"]]),
+                         # replace an existing item (the container keeps its length) instead of adding one
+                         "rep": rng.random() < 0.5})
+            continue
         if body == "gen" and r < 0.45:
             acts.append({"a": "yield", "v": V.gen_value(rng, ctx.kn, ctx.classes), "catch": rng.random() < 0.3})
             if names and ctx.kn.get("rebind", True) and rng.random() < 0.4:
@@ -323,9 +343,10 @@ class Mat:
         self.tw = tw
         self.inner_handles = []
         self.aio_stats = []
+        self.shared = {}
 
     def val(self, spec):
-        return V.build(spec, self.lp.classes, self.tw)
+        return V.build(spec, self.lp.classes, self.tw, self.shared)
 
     def callee(self, a):
         lp = self.lp
@@ -397,6 +418,8 @@ class Mat:
                 out.append((17,))
             elif k == "retp":
                 out.append((18, a["p"]))
+            elif k == "mut":
+                out.append((19, a["p"], self.val(a["v"]), self.val(a["key"]), bool(a.get("rep"))))
             elif k == "await":
                 out.append((13,))
             elif k == "awaitcall":
